@@ -718,4 +718,4 @@ def run(chk, prog):
     chk.floor("O", no, 2000)
     # ---- S5: the sweeps of one phase commute -------------------------------------------------------------
     n5 = c10_commute.rule_S5(chk, prog.library())
-    chk.floor("S5", n5, 20)
+    chk.floor("S5", n5, 10)
